@@ -16,6 +16,9 @@ import sys
 import textwrap
 import threading
 import time
+import re as _re
+_TIMEOUT_RX = _re.compile(r"time[\s-]?out|timed[\s-]out|time[\s-]limit|cancel+ed", _re.I)
+
 
 
 class Injected(Exception):
@@ -111,7 +114,7 @@ class Injector:
             rid = str(data_dict.get("id"))
             issue = out.get(k.get("issue_col", "issue"), "")
             inj.note("search_done", rid, inj.cond_index(k), round(dt, 3))
-            if "timeout" in str(issue).lower():
+            if _TIMEOUT_RX.search(str(issue)) or dt >= 0.98 * inj.budget:  # by wording or by duration
                 inj.note("search_timeout", rid, inj.cond_index(k), round(dt, 3))
             elif dt > 0.6 * inj.budget:
                 inj.note("search_slow", rid, inj.cond_index(k), round(dt, 3))
